@@ -73,6 +73,25 @@ def run(chk):
     iph = par(pair.impl, ["pageheaders %s" % c.impl_file for c in cases])
     mph = par(pair.model, ["pageheaders %s" % c.impl_file for c in cases])
     tie_breaks, prop_fail = [], []
+    # files whose row groups are not adjacent (padding before every row group, offsets shifted; legal, e.g. parquet-mr
+    # aligns row groups): page headers carry no offsets, so the calls must list exactly the headers of the
+    # unpadded file, located through each chunk's data_page_offset
+    gsrc = [c for c in cases if len(c.impl_file) < 40000][:: (1 if thorough else 3)]
+    gops = ["gapfile %d %s" % ([3, 64, 1][i % 3], c.impl_file) for i, c in enumerate(gsrc)]
+    gfiles = par(pair.model, gops)
+    gph_ops = ["pageheaders %s" % g.split(" ")[1] for g in gfiles if g.startswith("ok ")]
+    gsrc = [c for c, g in zip(gsrc, gfiles) if g.startswith("ok ")]
+    gi, gm = par(pair.impl, gph_ops), par(pair.model, gph_ops)
+    base = dict(zip([c.impl_file for c in cases], iph))
+    gap_checked = 0
+    for c, o, a, b in zip(gsrc, gph_ops, gi, gm):
+        gap_checked += 1
+        if a != b:
+            tie_breaks.append({"case": c.key()[:300], "what": "PageHeaders on a file with padded row groups", "impl": a[:300], "model": b[:300]})
+        if a != base[c.impl_file]:
+            prop_fail.append({"case": c.key()[:1500] + " | " + o[:120] + "...", "key": {"call": "PageHeaders", "layout": "padded-row-groups"},
+                              "clause": "PageHeaders of the file with padding before every row group differs from the headers of the same pages laid out back to back",
+                              "got": a[:500], "want": base[c.impl_file][:500]})
     at_ops, at_want, at_case = [], [], []
     nontrivial = set()
     for c, w, im, mm, ip, mp in zip(cases, walk, imeta, mmeta, iph, mph):
@@ -125,8 +144,9 @@ def run(chk):
     cov.update({
         "obligations": pr["obligations"], "discharged": pr["discharged"], "axioms": pr["axioms"],
         "checker_cmd": "cd lean && lake build %s" % MODULE, "trusted_base": TRUSTED_BASE, "forbidden_constructs": pr["forbidden_constructs"],
+        "padded_layout_files": gap_checked,
         "evaluations": 2 * len(cases) + len(at_ops), "distinct_nontrivial": len(nontrivial) + len(set(at_ops)),
-        "rule": "valid files of 7 structs x 3 codecs x page sizes (incl. several pages per chunk and two row groups), files with page headers up to > 128 KiB, foreign files from PQ.specWrite incl. row groups without rows: ReadMetaData vs the footer decoded by the independent Lean thrift decoder; PageHeaders vs one header per page found by the independent walk (PQ.parseFile); PageHeadersAtOffset from EVERY page start with n in {0, nv-1, nv, nv+1, rest of chunk}; non-trivial = distinct call with the expected result",
+        "rule": "valid files of 7 structs x 3 codecs x page sizes (incl. several pages per chunk and two row groups), files with page headers up to > 128 KiB, foreign files from PQ.specWrite incl. row groups without rows, files with padding before every row group (offsets shifted): ReadMetaData vs the footer decoded by the independent Lean thrift decoder; PageHeaders vs one header per page found by the independent walk (PQ.parseFile); PageHeadersAtOffset from EVERY page start with n in {0, nv-1, nv, nv+1, rest of chunk}; non-trivial = distinct call with the expected result",
         "samples": [at_ops[0][-60:] if at_ops else "-", cases[0].key()[:200]],
         "tie": "exact: Lean mirrors readMetaData/pageHeaders/pageHeadersAt = Go functions (canonical field-by-field text)",
         "tie_disagreements": len(tie_breaks), "property_failures_on_impl": len(prop_fail),
